@@ -25,7 +25,7 @@ INVARIANT Report
 CHECK_DEADLOCK FALSE
 """
 
-PATHS = ["dd", "sd", "ds", "ss", "comp", "compS"]
+PATHS = ["dd", "sd", "ds", "ss", "comp", "compS", "compDS", "compSD"]
 
 
 def _sp(F):
@@ -67,6 +67,15 @@ def product(path, FA, FB):
         C = u.timesQsparse(*[sparse.csr_matrix(FA[..., c]) for c in range(4)],
                            *[sparse.csr_matrix(FB[..., c]) for c in range(4)])
         C = np.stack([np.asarray(x) for x in C], axis=-1)
+        return C, C.shape[:2]
+    if path in ("compDS", "compSD"):
+        a = [np.ascontiguousarray(FA[..., c]) for c in range(4)]
+        b = [np.ascontiguousarray(FB[..., c]) for c in range(4)]
+        if path == "compDS":
+            b = [sparse.csr_matrix(x) for x in b]
+        else:
+            a = [sparse.csr_matrix(x) for x in a]
+        C = np.stack([np.asarray(x) for x in u.timesQsparse(*a, *b)], axis=-1)
         return C, C.shape[:2]
     raise KeyError(path)
 
